@@ -173,4 +173,23 @@ CLAIMS = {
         "note": "Not decided: console-encoding behaviour for non-ASCII output. Two genuine defects were repaired (encoding not passed on; stdin not decoded with it).",
         "technique": "backward slicing, reaching definitions, control-dependence comparison, annotation-closure exhaustiveness",
     },
+    "C09": {
+        "level": "Layout tokens cannot be observed by the parser except where the statement says the line end is significant: accessor "
+        "discipline at all 128 stream accesses in parser.py, filter discipline of every TokenStream accessor (tokens inspected only after "
+        "the discard filter), the discard sets against the documented layout kinds with automaton facts (blank-only, newline-only, "
+        "mandatory comment prefixes, reference comment grammar included in the comment rules), newline-swallowing discardables tested "
+        "where the line end matters, CRLF normalisation, splice guard, re-queueing trailing-comment scan.",
+        "note": "One genuine finding listed (D9: '#include <a.h> // c' keeps the comment). Two defects repaired (pragma + trailing comment; "
+        "CRLF). NOT decided: equality of results under re-layout as such (a runtime relation over all gaps).",
+        "technique": "who-may-call and filter-discipline rules over the resolved accesses; reaching definitions; automaton containment/inclusion queries",
+    },
+    "C19": {
+        "level": "Narrow: the code-shape parts of the filters and factories. Anchoring of the marker file-name comparison in all three "
+        "filters (sibling cross-check), kept lines written under `keep` only (markers stay, so line numbers hold), `keep` updated only on "
+        "marker lines, filter applied exactly when retain_all_content is false, gcc depfile argument handling (raise without targets, one "
+        "-MQ per target), pcpp depfile contents.",
+        "note": "NOT decided (the bulk of the statement): macro expansion, ordering, line numbers after filtering, depfile completeness - "
+        "they depend on what gcc / cl.exe / pcpp emit, which no static argument over this repository can bound. One defect repaired (unanchored endswith).",
+        "technique": "sibling cross-check of filter functions; control-dependence comparison; reaching definitions of the comparison needle",
+    },
 }
